@@ -43,6 +43,7 @@ def strip_annotations(repo, *relpaths):
         `global` in a function, not shadowed in the function) and of a class-level constant read as self.X / cls.X / Class.X
         (bound once in the class body to an immutable literal, never assigned through an instance) are replaced by the literal;
     N4  `A if not c else B` becomes `B if c else A`;
+    N6  `a, b = x, y` (no calls, no target read on the right) becomes `a = x; b = y`;
     N5  `if (x := E) ...:` becomes `x = E` followed by `if x ...:` when the walrus is the first thing the test evaluates.
     """
     import ast as _ast
@@ -133,6 +134,13 @@ def strip_annotations(repo, *relpaths):
 
             def visit_Assign(self, node):
                 node = self.generic_visit(node)
+                # N6: `a, b = x, y` -> `a = x; b = y` when no target name is read by any of the values
+                if len(node.targets) == 1 and isinstance(node.targets[0], _ast.Tuple) and isinstance(node.value, _ast.Tuple) and len(node.targets[0].elts) == len(node.value.elts) \
+                        and all(isinstance(t, _ast.Name) for t in node.targets[0].elts):
+                    tn = {t.id for t in node.targets[0].elts}
+                    read = {x.id for v_ in node.value.elts for x in _ast.walk(v_) if isinstance(x, _ast.Name)}
+                    if not (tn & read) and len(tn) == len(node.targets[0].elts) and not any(isinstance(x, (_ast.Call, _ast.Await, _ast.Yield, _ast.NamedExpr)) for v_ in node.value.elts for x in _ast.walk(v_)):
+                        return [_ast.copy_location(_ast.Assign(targets=[t], value=v_, type_comment=None), node) for t, v_ in zip(node.targets[0].elts, node.value.elts)]
                 if len(node.targets) == 1 and isinstance(node.targets[0], _ast.Name) and isinstance(node.value, _ast.BinOp) and isinstance(node.value.left, _ast.Name) \
                         and node.value.left.id == node.targets[0].id and isinstance(node.value.op, (_ast.Add, _ast.Sub, _ast.Mult, _ast.BitOr, _ast.BitAnd)):
                     return _ast.copy_location(_ast.AugAssign(target=node.targets[0], op=node.value.op, value=node.value.right), node)
